@@ -354,11 +354,11 @@ def run(pid, tier):
     sizes = [0, 1, 2] if q else [0, 1, 2, 3]
     for op in ("defaults", "overrides"):
         h = h_pairwise(sizes, op)
-        res = e2.run_harness(prog, h, keep_raw=True)
+        res = e2.run_with_raw(prog, h)
         replay_tcc(rep, h, res, op, lambda args: args[:2])
         e2.record(rep, h, res)
     h = h_assoc([0, 1] if q else [0, 1, 2])
-    res = e2.run_harness(prog, h, keep_raw=True)
+    res = e2.run_with_raw(prog, h)
     for model, r in res.raw_witnesses[:3]:
         js = [tcc_to_json(x, model) for x in r.ctx.notes["args"][:3]]
         k1, v1 = NAT.call("tcc_merge", ["defaults", js])
@@ -370,7 +370,7 @@ def run(pid, tier):
             rep.mismatches.append("tcc_associative: solver witness did not reproduce natively: %s" % js)
     e2.record(rep, h, res)
     h = h_identity()
-    res = e2.run_harness(prog, h, keep_raw=True)
+    res = e2.run_with_raw(prog, h)
     for model, r in res.raw_witnesses[:3]:
         js = tcc_to_json(r.ctx.notes["args"][0], model)
         empty = {"environment": []}
@@ -384,7 +384,7 @@ def run(pid, tier):
             rep.mismatches.append("tcc_empty_is_identity: solver witness did not reproduce natively: %s" % js)
     e2.record(rep, h, res)
     h = h_doc_lists(1 if q else 2)
-    res = e2.run_harness(prog, h, keep_raw=True)
+    res = e2.run_with_raw(prog, h)
     for model, r in res.raw_witnesses[:3]:
         s, d = r.ctx.notes["args"][:2]
 
